@@ -1,19 +1,15 @@
 package c01
 
 import (
-	"fmt"
 	"testing"
 
-	"pgregory.net/rapid"
-
 	"verifharness/common"
-	"verifharness/engine"
 	"verifharness/evidence"
 	"verifharness/gen"
-	"verifharness/sut"
 )
 
 var rec *evidence.Recorder
+var fam *common.Family
 
 func TestMain(m *testing.M) {
 	rec = evidence.New("C01", "exploration",
@@ -25,65 +21,8 @@ func TestMain(m *testing.M) {
 		"embedded API (ExecuteCommand) is the observation point; wire framing is C12's business",
 		"virtual clock (hook H1) held fixed within a case; deadlines are compared exactly",
 		"details the property and SugarDB's docs leave open are not asserted (see /verif/SPEC.md): SETRANGE positional semantics follow the existing tests, GETRANGE with start > end and on a missing key, string commands on integer/float-typed values may fail")
+	fam = &common.Family{Rec: rec, Keys: gen.Keys, Gen: gen.StringCmd, Alphabet: enumAlphabet, MaxSteps: 30}
 	common.Main(m, rec)
-}
-
-func newServer(t interface{ Fatalf(string, ...any) }) *sut.Server {
-	s, err := sut.New(sut.Opts{})
-	if err != nil {
-		t.Fatalf("HARNESS-ERROR: %v", err)
-	}
-	return s
-}
-
-// nontrivial: ≥ 2 commands on the same key, or an invocation that was answered with an error.
-func nontrivial(tr []engine.TraceStep) bool {
-	seen := map[string]int{}
-	for _, s := range tr {
-		if s.Op != "cmd" {
-			continue
-		}
-		if len(s.Reply) > 3 && s.Reply[:3] == "ERR" {
-			return true
-		}
-		if len(s.Cmd) < 2 {
-			continue
-		}
-		seen[s.Cmd[1]]++
-		if seen[s.Cmd[1]] >= 2 {
-			return true
-		}
-	}
-	return false
-}
-
-func TestCorpus(t *testing.T) {
-	if common.ReplayPath() != "" {
-		t.Skip()
-	}
-	defer common.Verdict(t, rec, "corpus")
-	common.RunFindingExamples(t, rec, gen.Keys, sut.Opts{})
-}
-
-func TestRandom(t *testing.T) {
-	if common.ReplayPath() != "" {
-		t.Skip()
-	}
-	defer common.Verdict(t, rec, "random")
-	rapid.Check(t, func(t *rapid.T) {
-		s := newServer(t)
-		defer func() { s.Close(); s.RemoveDir() }()
-		e := engine.New(s, gen.Keys, rec)
-		n := rapid.IntRange(1, 30).Draw(t, "steps")
-		for i := 0; i < n; i++ {
-			cmd := gen.StringCmd(t, e.M, gen.Keys)
-			rec.Class("cmd:" + cmd[0])
-			if f := e.Exec(cmd...); f != nil {
-				common.FailCase(t, rec, "random", nil, e.Trace, f)
-			}
-		}
-		rec.Case(engine.CanonTrace(e.Trace), nontrivial(e.Trace), engine.SampleTrace(e.Trace))
-	})
 }
 
 // enumAlphabet is the fixed alphabet of concrete commands of the exhaustive leg.
@@ -112,74 +51,7 @@ func enumAlphabet(thorough bool) [][]string {
 	return al
 }
 
-func TestEnum(t *testing.T) {
-	if common.ReplayPath() != "" {
-		t.Skip()
-	}
-	defer common.Verdict(t, rec, "enum")
-	thorough := evidence.Thorough()
-	al := enumAlphabet(thorough)
-	depth := 2
-	if thorough {
-		depth = 3
-	}
-	keys := []string{"a", "b", "c"}
-	idx := make([]int, depth)
-	var total, mine int64
-	shard, shards := evidence.Shard(), evidence.Shards()
-	var run func(d, length int)
-	runSeq := func(length int) {
-		total++
-		if int(total)%shards != shard {
-			return
-		}
-		mine++
-		s := newServer(t)
-		e := engine.New(s, keys, rec)
-		for i := 0; i < length; i++ {
-			if f := e.Exec(al[idx[i]]...); f != nil {
-				s.Close()
-				s.RemoveDir()
-				common.FailCase(t, rec, "enum", map[string]any{"depth": length}, e.Trace, f)
-			}
-		}
-		s.Close()
-		s.RemoveDir()
-		rec.Case(engine.CanonTrace(e.Trace), nontrivial(e.Trace), engine.SampleTrace(e.Trace))
-	}
-	run = func(d, length int) {
-		if d == length {
-			runSeq(length)
-			return
-		}
-		for i := range al {
-			idx[d] = i
-			run(d+1, length)
-		}
-	}
-	for length := 1; length <= depth; length++ {
-		run(0, length)
-	}
-	rec.Add("enumerated_sequences", mine)
-	rec.Set("enum_alphabet", len(al))
-	rec.Set("enum_depth", depth)
-	t.Logf("enumerated %d of %d sequences (alphabet %d, depth %d)", mine, total, len(al), depth)
-}
-
-func TestReplay(t *testing.T) {
-	p := common.ReplayPath()
-	if p == "" {
-		t.Skip()
-	}
-	r, err := common.LoadReplay(p)
-	if err != nil {
-		t.Fatalf("HARNESS-ERROR: %v", err)
-	}
-	s := newServer(t)
-	defer func() { s.Close(); s.RemoveDir() }()
-	e := engine.New(s, gen.Keys, nil)
-	if f := common.ReplayTrace(e, r.Ops); f != nil {
-		fmt.Printf("VIOLATION property=C01 replay=%s\n", p)
-		t.Fatalf("replay reproduces: %v", f)
-	}
-}
+func TestCorpus(t *testing.T) { fam.Corpus(t) }
+func TestRandom(t *testing.T) { fam.Random(t) }
+func TestEnum(t *testing.T)   { fam.Enum(t) }
+func TestReplay(t *testing.T) { fam.Replay(t) }
